@@ -1533,7 +1533,105 @@ Lemma stream_plan_v0_refuted_lemma : exists file a c, a < c /\
   match stream_plan false file (Some (a, c)) with Some (b, n) => n <> N.of_nat (length b) | None => False end.
 Proof. exists [1; 2; 3], 1, 10. split; [lia|]. vm_compute. discriminate. Qed.
 
-(** ---- the executable history of the correspondence ([pair_hist], components proto.pair / proto.answered) ---- *)
+(** ... and (repaired) it answers a Range exactly as [apply_to_response] answers it for a body in memory (Model/Range.v
+    [apply_range], C09): 416 when the start is at or after the end of the file, else 206, the same [content-range], the
+    same bytes *)
+Lemma stream_body_as_in_memory_lemma checked file a c : a < c ->
+  match apply_range checked (Some (a, c)) 200 file with
+  | Ok g => stream_plan true file (Some (a, c)) = Some (r_body g, N.of_nat (length (r_body g))) /\
+            stream_head true file (Some (a, c)) = Some (r_status g, r_content_range g)
+  | Err _ => stream_plan true file (Some (a, c)) = None /\ stream_head true file (Some (a, c)) = None
+  | Panic => False
+  end.
+Proof.
+  intros Hac. unfold apply_range, stream_plan, stream_head. cbn [andb].
+  set (len := N.of_nat (length file)).
+  destruct (len <=? a) eqn:Ea; [split; reflexivity|].
+  assert (Hre : (if len <=? c then len else c) = N.min c len) by (destruct (len <=? c) eqn:Ec; lia).
+  rewrite Hre. set (re := N.min c len).
+  unfold sub_u64. replace (1 <=? re) with true by (unfold re; lia). cbn [obind].
+  unfold slice_chk, slice_get.
+  replace (Nat.leb (N.to_nat a) (N.to_nat re) && Nat.leb (N.to_nat re) (length file))%bool with true.
+  2:{ symmetry. apply andb_true_iff. split; apply Nat.leb_le; unfold re, len in *; lia. }
+  cbn [obind r_body r_status r_content_range]. unfold slice.
+  replace (N.to_nat re - N.to_nat a)%nat with (N.to_nat (re - a)) by lia.
+  split; [|reflexivity]. f_equal. f_equal.
+  rewrite firstn_length, skipn_length. unfold re, len in *. lia.
+Qed.
+
+(** the code before the repair answered 200 without [content-range] *)
+Lemma stream_head_v0_lemma file a c : stream_head false file (Some (a, c)) = Some (200, None).
+Proof. reflexivity. Qed.
+
+(** ---- the other repairs of [SendKind::send] made for other properties, as they show on both protocols ---- *)
+(** 21f0154: a Range that starts at or after the end of the body is answered with the host's 416 page carrying the [vary]
+    header of the request's rules (when that page has a body) *)
+Lemma range_not_satisfiable_page_lemma checked error_page vn a c r :
+  (rs_status r =? 304) = false -> N.of_nat (length (rs_body r)) <= a ->
+  apply_sd checked error_page vn (Ok (Some (a, c))) r = Ok (vary_from_settings vn (error_page 416)) /\
+  (rs_body (error_page 416) <> [] ->
+   assoc H_VARY (rs_headers (vary_from_settings vn (error_page 416))) = Some (vary_value vn) /\
+   rs_body (vary_from_settings vn (error_page 416)) = rs_body (error_page 416)).
+Proof.
+  intros H304 Hlen. split.
+  - unfold apply_sd. rewrite H304. unfold apply_range.
+    replace (N.of_nat (length (rs_body r)) <=? a) with true by lia. reflexivity.
+  - intros Hb. unfold vary_from_settings.
+    destruct (N.of_nat (length (rs_body (error_page 416))) =? 0) eqn:E.
+    + apply N_len_zero in E. contradiction.
+    + cbn [rs_headers rs_body]. split; [apply assoc_insert_same | reflexivity].
+Qed.
+
+(** 89e2956: a 1xx / 204 / 304 answer to a request without a Range header has no body on either protocol, whatever an
+    extension left on the response *)
+Lemma bodiless_status_lemma checked error_page vn pkg p secure alt m path_ok r w :
+  ends_with_head (rs_status r) = true ->
+  send checked error_page vn pkg p secure alt m (sd_of path_ok None) r = Ok (WResp w) ->
+  rs_body w = [] /\ rs_status w = rs_status r.
+Proof.
+  intros Hs. unfold send, sd_of, sanitize_range.
+  set (ra := add_alt_svc secure alt r).
+  assert (H0 : head_only ra = mkResp (rs_version ra) (rs_status r) (rs_headers ra) []).
+  { unfold head_only, ra. rewrite add_alt_svc_status, Hs. reflexivity. }
+  rewrite H0.
+  assert (E : exists h, (if path_ok then apply_sd checked error_page vn (Ok None) (mkResp (rs_version ra) (rs_status r) (rs_headers ra) [])
+                         else apply_sd checked error_page vn (Err 400) (mkResp (rs_version ra) (rs_status r) (rs_headers ra) []))
+                        = Ok (mkResp (rs_version ra) (rs_status r) h [])).
+  { destruct path_ok; unfold apply_sd; cbn [rs_status rs_body rs_headers rs_version].
+    - destruct (rs_status r =? 304); [eexists; reflexivity|]. unfold apply_range. cbn [length].
+      cbn [r_accept_ranges r_content_range r_status r_body]. eexists; reflexivity.
+    - eexists; reflexivity. }
+  destruct E as [h E].
+  replace (apply_sd checked error_page vn (if path_ok then Ok None else Err 400)
+                    {| rs_version := rs_version ra; rs_status := rs_status r; rs_headers := rs_headers ra; rs_body := [] |})
+    with (Ok (mkResp (rs_version ra) (rs_status r) h [])) by (destruct path_ok; symmetry; exact E).
+  cbn [obind rs_body rs_status rs_headers rs_version].
+  assert (Sb : sends_body m [] = false) by reflexivity. rewrite Sb.
+  destruct p.
+  - intros H. inversion H. split; reflexivity.
+  - destruct (h2_refuses _); intros H; inversion H. split; reflexivity.
+Qed.
+
+(** 7334433: after an answer that ends the HTTP/1 connection nothing more is answered on it — while the HTTP/2 connection
+    goes on: the hypothesis "only the last" of [pair_hist_answered] is needed.  Each answer is the same on both. *)
+Definition unk_page : resp := mkResp V11 200 [(B "content-type", B "text/plain")] [].
+Lemma close_delimited_not_last_refuted_lemma : exists checked ops alt e416 exs,
+  Forall ex_ok exs /\
+  map is_resp (pair_hist checked ops alt e416 H1 true true exs) = [true; false] /\
+  map is_resp (pair_hist checked ops alt e416 H2 true true exs) = [true; true] /\
+  map (send_ex checked ops alt e416 H1 true) exs
+    = [Ok (WClosed (mkResp V11 200 [(B "content-type", B "text/plain"); (B "connection", B "close")] (B "first second")));
+       Ok (WResp (mkResp V11 200 [(B "content-type", B "text/plain"); (B "content-length", B "0"); (B "connection", B "keep-alive")] []))] /\
+  map (option_map onorm) (map (fun e => Some (send_ex checked ops alt e416 H1 true e)) exs)
+    = map (option_map onorm) (pair_hist checked ops alt e416 H2 true true exs).
+Proof.
+  exists false, [], None, unk_page,
+    [mkEx M_GET None true unk_page 0 None false (Some ([B "first "; B "second"], None)) [];
+     mkEx M_GET None true unk_page 0 None false None []].
+  split; [|vm_compute; repeat split].
+  repeat constructor; cbn; try lia; try discriminate; try (intros H; exfalso; apply H; reflexivity).
+Qed.
+
 (** the package menu leaves [content-length] alone whenever none of its extensions names a connection-level header *)
 Lemma run_pkg_op_keeps_CL o h : hop (pkg_op_name o) = false -> assoc H_CL (run_pkg_op o h) = assoc H_CL h.
 Proof.
